@@ -1784,7 +1784,7 @@ fn emit_load_stack_offset(offset: i8, exec: &mut [u8]) -> usize {
 }
 
 fn emit_memory_read(exec: &mut [u8], memory_base: usize, indirect_address: X86Reg16, dest_register: X86Reg8) -> usize {
-  let fn_pointer = address_as_bytes(crate::mem::memory_read_byte as u64);
+  let fn_pointer = address_as_bytes(crate::mem::jit_read_byte as u64);
   let address_source = match indirect_address {
     X86Reg16::BX => 0xde,
     X86Reg16::CX => 0xce,
@@ -1843,7 +1843,7 @@ fn emit_memory_read(exec: &mut [u8], memory_base: usize, indirect_address: X86Re
 }
 
 fn emit_memory_write(exec: &mut [u8], memory_base: usize, indirect_address: X86Reg16, source: X86Reg8) -> usize {
-  let fn_pointer = address_as_bytes(crate::mem::memory_write_byte as u64);
+  let fn_pointer = address_as_bytes(crate::mem::jit_write_byte as u64);
   let address_dest = match indirect_address {
     X86Reg16::BX => 0xde,
     X86Reg16::CX => 0xce,
@@ -1888,7 +1888,7 @@ fn emit_memory_write(exec: &mut [u8], memory_base: usize, indirect_address: X86R
 }
 
 fn emit_memory_write_literal(exec: &mut [u8], memory_base: usize, indirect_address: X86Reg16, value: u8) -> usize {
-  let fn_pointer = address_as_bytes(crate::mem::memory_write_byte as u64);
+  let fn_pointer = address_as_bytes(crate::mem::jit_write_byte as u64);
   let address_dest = match indirect_address {
     X86Reg16::BX => 0xde,
     X86Reg16::CX => 0xce,
@@ -1933,7 +1933,7 @@ fn emit_memory_write_literal(exec: &mut [u8], memory_base: usize, indirect_addre
 }
 
 fn emit_write_stack_to_memory(exec: &mut [u8], memory_base: usize, address: u16) -> usize {
-  let fn_pointer = address_as_bytes(crate::mem::memory_write_word as u64);
+  let fn_pointer = address_as_bytes(crate::mem::jit_write_word as u64);
   let memory_pointer = address_as_bytes(memory_base as u64);
   let code = [
     0x50, // push rax
@@ -1971,7 +1971,7 @@ fn emit_write_stack_to_memory(exec: &mut [u8], memory_base: usize, address: u16)
 }
 
 fn emit_write_a_to_memory(exec: &mut [u8], memory_base: usize, address: u16) -> usize {
-  let fn_pointer = address_as_bytes(crate::mem::memory_write_byte as u64);
+  let fn_pointer = address_as_bytes(crate::mem::jit_write_byte as u64);
   let memory_pointer = address_as_bytes(memory_base as u64);
   let code = [
     0x50, // push rax
@@ -2009,7 +2009,7 @@ fn emit_write_a_to_memory(exec: &mut [u8], memory_base: usize, address: u16) -> 
 }
 
 fn emit_read_a_from_memory(exec: &mut [u8], memory_base: usize, address: u16) -> usize {
-  let fn_pointer = address_as_bytes(crate::mem::memory_read_byte as u64);
+  let fn_pointer = address_as_bytes(crate::mem::jit_read_byte as u64);
   let memory_pointer = address_as_bytes(memory_base as u64);
   let code = [
     0x50, // push rax
@@ -2047,7 +2047,7 @@ fn emit_read_a_from_memory(exec: &mut [u8], memory_base: usize, address: u16) ->
 }
 
 fn emit_load_to_high_mem(exec: &mut [u8], memory_base: usize) -> usize {
-  let fn_pointer = address_as_bytes(crate::mem::memory_write_byte as u64);
+  let fn_pointer = address_as_bytes(crate::mem::jit_write_byte as u64);
   let memory_pointer = address_as_bytes(memory_base as u64);
   let code = [
     0x50, // push rax
@@ -2086,7 +2086,7 @@ fn emit_load_to_high_mem(exec: &mut [u8], memory_base: usize) -> usize {
 }
 
 fn emit_load_from_high_mem(exec: &mut [u8], memory_base: usize) -> usize {
-  let fn_pointer = address_as_bytes(crate::mem::memory_read_byte as u64);
+  let fn_pointer = address_as_bytes(crate::mem::jit_read_byte as u64);
   let memory_pointer = address_as_bytes(memory_base as u64);
   let code = [
     0x50, // push rax
@@ -2125,7 +2125,7 @@ fn emit_load_from_high_mem(exec: &mut [u8], memory_base: usize) -> usize {
 }
 
 fn emit_push(source: X86Reg16, memory_base: usize, exec: &mut [u8]) -> usize {
-  let fn_pointer = address_as_bytes(crate::mem::memory_push_word as u64);
+  let fn_pointer = address_as_bytes(crate::mem::jit_push_word as u64);
   let memory_pointer = address_as_bytes(memory_base as u64);
   let load_source_bytes = match source {
     X86Reg16::AX => (0x89, 0xc2, 0x90),
@@ -2174,7 +2174,7 @@ fn emit_push(source: X86Reg16, memory_base: usize, exec: &mut [u8]) -> usize {
 }
 
 fn emit_pop(dest: X86Reg16, memory_base: usize, exec: &mut [u8]) -> usize {
-  let fn_pointer = address_as_bytes(crate::mem::memory_read_word as u64);
+  let fn_pointer = address_as_bytes(crate::mem::jit_read_word as u64);
   let memory_pointer = address_as_bytes(memory_base as u64);
   let stack_offset = match dest {
     X86Reg16::AX => 32,
@@ -2234,7 +2234,7 @@ fn emit_pop(dest: X86Reg16, memory_base: usize, exec: &mut [u8]) -> usize {
 }
 
 fn emit_hl_indirect_partial_read(memory_base: usize, exec: &mut [u8]) -> usize {
-  let fn_pointer = address_as_bytes(crate::mem::memory_read_byte as u64);
+  let fn_pointer = address_as_bytes(crate::mem::jit_read_byte as u64);
   let memory_pointer = address_as_bytes(memory_base as u64);
   let code = [
     0x50, // push rax
@@ -2270,7 +2270,7 @@ fn emit_hl_indirect_partial_read(memory_base: usize, exec: &mut [u8]) -> usize {
 }
 
 fn emit_hl_indirect_partial_write(memory_base: usize, exec: &mut [u8]) -> usize {
-  let fn_pointer = address_as_bytes(crate::mem::memory_write_byte as u64);
+  let fn_pointer = address_as_bytes(crate::mem::jit_write_byte as u64);
   let memory_pointer = address_as_bytes(memory_base as u64);
   let code = [
     0x88, 0x44, 0x24, 0x10, // mov [rsp + 16], al
@@ -2321,7 +2321,7 @@ fn emit_hl_indirect_partial_end(exec: &mut [u8]) -> usize {
 /// Read the value stored at (HL) into E
 /// Make sure $rdx can be restored after this result is used
 fn emit_hl_indirect_read(memory_base: usize, exec: &mut [u8]) -> usize {
-  let fn_pointer = address_as_bytes(crate::mem::memory_read_byte as u64);
+  let fn_pointer = address_as_bytes(crate::mem::jit_read_byte as u64);
   let memory_pointer = address_as_bytes(memory_base as u64);
   let code = [
     0x50, // push rax
